@@ -3,6 +3,11 @@
 import json, os
 V = os.path.dirname(os.path.dirname(os.path.abspath(__file__)))
 claims = json.load(open(os.path.join(V, "tools", "claims.json")))
+cd = os.path.join(V, "tools", "claims.d")
+if os.path.isdir(cd):
+    for fn in sorted(os.listdir(cd)):
+        if fn.endswith(".json"):
+            claims.update(json.load(open(os.path.join(cd, fn))))
 props = [json.loads(l) for l in open(os.path.join(V, "properties.jsonl"))]
 checks, na = [], []
 for p in props:
